@@ -43,6 +43,12 @@ func (p *Prog) TryField(pkgShort, typeName, field string) *types.Var {
 			return st.Field(i)
 		}
 	}
+	// moved into an embedded struct of the same type: the promoted field
+	if o, _, _ := types.LookupFieldOrMethod(obj.Type(), true, p.pkg(pkgShort).Types, field); o != nil {
+		if v, ok := o.(*types.Var); ok && v.IsField() {
+			return v
+		}
+	}
 	return nil
 }
 
